@@ -20,6 +20,7 @@ func main() {
 		n = 4000
 	}
 	rng := wh.NewRng(a.Seed)
+	gc.EmitProd = true // also check registry + subscription streams together against the composition M_prod
 	// first: a receive loop publishing to many other topics before it acks (blocking mode)
 	{
 		sc := gc.NestedFan(rng.Next(), 96)
